@@ -99,9 +99,9 @@ theorem T2_4_valid (rel : Rel) (st : St) (P : Poly) (lam : Rat) (lt : Bool) (b :
 /-- **T2.4 for histories.**  After any sequence of additions to a fresh model, `is_solution_valid(x)` is true
 exactly when every recorded constraint — i.e. every input, in order — holds at `x`. -/
 theorem T2_4_history (h : List Step) (x : Var → Rat) :
-    (run {} h).cons = h.map (fun c => (c.rel, c.P)) ∧
-    (isValid (run {} h) x = true ↔ ∀ c ∈ h, RelP c.rel (eval x c.P)) := by
-  have hc : (run {} h).cons = h.map (fun c => (c.rel, c.P)) := by rw [run_cons]; rfl
+    (runH {} h).cons = h.map (fun c => (c.rel, c.P)) ∧
+    (isValid (runH {} h) x = true ↔ ∀ c ∈ h, RelP c.rel (eval x c.P)) := by
+  have hc : (runH {} h).cons = h.map (fun c => (c.rel, c.P)) := by rw [run_cons]; rfl
   refine ⟨hc, ?_⟩
   rw [isValid_iff, hc]
   constructor
@@ -114,14 +114,14 @@ theorem T2_4_history (h : List Step) (x : Var → Rat) :
 ancilla that does not exist yet, the invariant "every label in the terms is below `ANC + anc`" is preserved,
 and the counter is monotone. -/
 theorem T2_5_ancInv (st : St) (h : List Step) (hi : AncInv st) (hok : HistOk st h) :
-    AncInv (run st h) ∧ st.anc ≤ (run st h).anc :=
+    AncInv (runH st h) ∧ st.anc ≤ (runH st h).anc :=
   ⟨run_ancInv hi hok, run_anc_le st h⟩
 
 /-- **T2.5 (histories, distinct ancillas).**  The ancilla sets of two different additions `c` (after `h1`) and
 `d` (after `h1, c, h2`) of one history are disjoint. -/
 theorem T2_5_disjoint (st : St) (h1 : List Step) (c : Step) (h2 : List Step) (d : Step) (i : Var) :
-    ¬ (InA (run st h1) (step (run st h1) c) i ∧
-       InA (run (step (run st h1) c) h2) (step (run (step (run st h1) c) h2) d) i) :=
+    ¬ (InA (runH st h1) (step (runH st h1) c) i ∧
+       InA (runH (step (runH st h1) c) h2) (step (runH (step (runH st h1) c) h2) d) i) :=
   fun ⟨hc, hd⟩ => ancillas_disjoint st h1 c h2 d i hc hd
 
 /-- **T2.5 (penalties add independently, satisfied side).**  Let every addition of a history satisfy the
@@ -131,15 +131,15 @@ history (everything else as in `x`) makes the sum of all added terms 0 — the m
 sum is the sum of the minima. -/
 theorem T2_5_independent_sat (st : St) (h : List Step) (hh : HistHyp st h) (x : Var → Rat) (hx : IsBool x)
     (hr : ∀ c ∈ h, RelP c.rel (eval x c.P)) :
-    ∃ s, (∀ i, ¬ InA st (run st h) i → s i = x i) ∧ IsBool s ∧ FPen st (run st h) s = 0 :=
+    ∃ s, (∀ i, ¬ InA st (runH st h) i → s i = x i) ∧ IsBool s ∧ FPen st (runH st h) s = 0 :=
   run_sat hh hx hr
 
 /-- **T2.5 (penalties add independently, violated side).**  Under the same hypotheses, the sum of all added
 terms is non-negative at every boolean assignment of variables and ancillas, and is at least `c.lam` as soon
 as some constraint `c` of the history is violated — whatever the ancillas of all constraints are set to. -/
 theorem T2_5_independent_viol (st : St) (h : List Step) (hh : HistHyp st h) (s : Var → Rat) (hs : IsBool s) :
-    0 ≤ FPen st (run st h) s ∧
-    ∀ c ∈ h, ¬ RelP c.rel (eval s c.P) → c.lam ≤ FPen st (run st h) s :=
+    0 ≤ FPen st (runH st h) s ∧
+    ∀ c ∈ h, ¬ RelP c.rel (eval s c.P) → c.lam ≤ FPen st (runH st h) s :=
   ⟨run_nonneg hh hs, fun c hc hr => run_viol hh hs c hc hr⟩
 
 /-- the hypotheses `nz`, `nd` of `Hyp` hold for every `PUBO(d)`, and integer coefficients give `int` -/
